@@ -826,6 +826,14 @@ func C16(c *core.Ctx) {
 		}
 		c.Decide(bad == "", "R16.11", "no-wait-under-a-lock-the-signaller-needs", "-", fmt.Sprintf("%d blocking receives from a channel field with a table lock held, none waits for a function that takes that lock", nWait), "deadlock: "+bad+" — the waiter never gets its signal, and every later command that needs the lock blocks behind it")
 	}
+	// ---- R16.12 (shared with C17 R17.10) "final tables equal some sequential order": a
+	// command that names a face and the teardown of that face are ordered by the table the
+	// handlers look the face up in — they find it only while its clean-up has not happened
+	// yet (the face leaves that table BEFORE its routes and next hops are cleaned up), and
+	// look it up again after the insertion
+	c.Import(C17, "R16.12", "a management command racing with the teardown of the face it names can leave a route or next hop on the dead face: the handlers look the face up in a table that the face leaves only after its clean-up (or do not look again after the insertion)", 2, func(k string) bool {
+		return strings.HasPrefix(k, "R17.10:route-face-rechecked-after-insertion") || strings.HasPrefix(k, "R17.10:nexthop-face-rechecked-after-insertion") || strings.HasPrefix(k, "R17.10:route-face-exists")
+	})
 	// ---- R16.9 removing a face from the RIB publishes no intermediate RIB: the forwarding
 	// threads look the FIB up without the RIB mutex, so a walk that removes the face's routes
 	// node by node and refreshes each node's FIB entry on the way publishes next-hop sets
